@@ -79,12 +79,18 @@ func replayMain(args []string) int {
 		tier = "quick"
 	}
 	cases := []replayCase{{ID: 0, Harness: r.Harness, Model: withTier(r.Model, tier)}}
-	res, err := nativeReplay(*repo, scratch, r.Package, pkgName, intr, hfiles, fns, setups, cases, r.Kind == "race")
+	res, err := nativeReplay(*repo, scratch, r.Package, pkgName, intr, hfiles, fns, setups, cases, map[bool]string{true: "race", false: ""}[r.Kind == "race"])
 	if err != nil {
 		fmt.Fprintln(os.Stderr, "replay failed to run:", err)
 		return 2
 	}
 	rr := res[0]
+	if rr != nil && rr.began && rr.ended && len(rr.fails) == 0 && rr.panicMsg == "" && r.Kind != "race" && schedDependent(r.Model) {
+		// schedule-dependent: second attempt with the rows amplified (verifAmplify), as check does
+		if res2, err2 := nativeReplay(*repo, scratch, r.Package, pkgName, intr, hfiles, fns, setups, cases, "amplify"); err2 == nil && res2[0] != nil && res2[0].began {
+			rr = res2[0]
+		}
+	}
 	if rr == nil || !rr.began {
 		fmt.Println("REPLAY did not run")
 		return 2
